@@ -1219,9 +1219,15 @@ fn write_central_directory_header<T: Write>(writer: &mut T, file: &ZipFileData) 
         0
     } | if file.encrypted { 1u16 << 0 } else { 0 };
     writer.write_u16::<LittleEndian>(flag)?;
-    // compression method
+    // compression method (an AES entry of an archive opened for append keeps 99 here, as in its
+    // local header; its real method stays in the AE-x extra field)
     #[allow(deprecated)]
-    writer.write_u16::<LittleEndian>(file.compression_method.to_u16())?;
+    let method = if file.aes_mode.is_some() {
+        CompressionMethod::AES.to_u16()
+    } else {
+        file.compression_method.to_u16()
+    };
+    writer.write_u16::<LittleEndian>(method)?;
     // last mod file time + date
     writer.write_u16::<LittleEndian>(file.last_modified_time.timepart())?;
     writer.write_u16::<LittleEndian>(file.last_modified_time.datepart())?;
